@@ -743,6 +743,44 @@ def search(ctx, boost=False):
             msg = check_ctx(t, ctxname, src, get)
             if msg:
                 s.violations.append(dict(what=msg, case=dict(kind='ctx', ctx={'alias': 'alias'}.get(ctxname, ctxname), outer=t[0], source=src, tree=repr(t))))
+    # redundant grouping parentheses directly around the declared name (`int *(x);`, `char *(f(int a));`, `int (x)[3];`): the type
+    # is the one denoted without them
+    for t in trees:
+        if rng.random() > (1.0 if (ctx.thorough or boost) else 0.25):
+            continue
+        cands = []
+        if decl.var_ok(t):
+            toks = decl.print_decl(t, 'x')
+            cands.append(('variable (name in parentheses)', toks, lambda d: (d.namespace.variables[0].name.format(), d.namespace.variables[0].type), t))
+            cands.append(('field (name in parentheses)', ['struct', 'S', '{'] + toks + [';', '}'], lambda d: (d.namespace.classes[0].fields[0].name, d.namespace.classes[0].fields[0].type), t))
+        if decl.kind(t) in 'BR' and not decl.is_void(t):
+            ft = ('F', t, ((('B', 'int', False, False), 'a'),), False)
+            cands.append(('function (name in parentheses)', decl.print_decl(ft, 'x'), lambda d: (d.namespace.functions[0].name.format(), d.namespace.functions[0].return_type), t))
+        for ctxname, toks, get, want in cands:
+            if toks.count('x') != 1:
+                continue
+            i = toks.index('x')
+            if i > 0 and toks[i - 1] == '(':
+                continue                      # already inside a declarator group: `(*x)`; a second pair is not accepted (unsupported)
+            wrapped = toks[:i] + ['(', 'x', ')'] + toks[i + 1:]
+            if ctxname.startswith('function'):
+                # the parentheses go around name and parameter list: `char *(x(int a))`
+                j = i + 1
+                depth_ = 0
+                while True:
+                    depth_ += toks[j] == '('
+                    depth_ -= toks[j] == ')'
+                    j += 1
+                    if depth_ == 0:
+                        break
+                wrapped = toks[:i] + ['('] + toks[i:j] + [')'] + toks[j:]
+            src = text_of(wrapped) + (';' if not ctxname.startswith('field') else ' ;')
+            s.evaluations += 1
+            s.count("redundant parentheses")
+            s.nontrivial.add((want, ctxname))
+            msg = check_ctx(want, ctxname, src, get)
+            if msg:
+                s.violations.append(dict(what=msg, case=dict(kind='ctx-src', ctx=ctxname, source=src, tree=repr(want))))
     for src, pred, what in FLAG_CASES:
         s.evaluations += 1
         s.count("flags")
@@ -811,6 +849,13 @@ def replay(ctx, case):
                 if msg:
                     out.append(msg)
         return out
+    if k == 'ctx-src':
+        t = eval(case["tree"])
+        getters = {'variable': lambda d: (d.namespace.variables[0].name.format(), d.namespace.variables[0].type),
+                   'field': lambda d: (d.namespace.classes[0].fields[0].name, d.namespace.classes[0].fields[0].type),
+                   'function': lambda d: (d.namespace.functions[0].name.format(), d.namespace.functions[0].return_type)}
+        msg = check_ctx(t, case["ctx"], case["source"], getters[case["ctx"].split(' ')[0]])
+        return [msg] if msg else []
     if k == 'flag':
         for src, pred, what in FLAG_CASES:
             if src == case["source"]:
